@@ -223,5 +223,5 @@ def cases(tier, seed):
         # the compiled reader on 2-member definitions is C02/C03's subject; here one reader suffices for them
         if not (tier == "quick" and two and c["cfg"]["compiled"]):
             yield c
-        if constructible(c["T"]) and (tier != "quick" or not two or c["cfg"]["endian"] == "<"):
+        if constructible(c["T"]) and (not two or c["cfg"]["endian"] == "<"):
             yield dict(c, make="make_constructed", label=c["label"] + "#ctor")
